@@ -30,7 +30,7 @@ DOCS = None
 PENV_SUFFIX = (("WELL_KNOWN_URL", "openid.well-known-url"), ("CLIENT_ID", "openid.client-id"), ("JWK", "openid.client-jwk"))
 PROVIDER_HEADINGS = {"ID-porten": "idporten", "Azure AD": "azure"}
 NEEDED_DEFAULTS = ("cookie.same-site", "cookie.secure", "openid.id-token-signing-alg", "openid.provider", "sso.mode",
-                   "shutdown-graceful-period", "shutdown-wait-before-period")
+                   "shutdown-graceful-period", "shutdown-wait-before-period", "redis.tls", "redis.connection-idle-timeout")
 
 
 def parse_docs(path):
@@ -214,7 +214,11 @@ def rules(case, **reading):
     port_s = v("upstream-port")
     port = parse_int(port_s) if port_s != "" else 0
     G, W = parse_duration(v("shutdown-graceful-period")), parse_duration(v("shutdown-wait-before-period"))
-    if secure is None or sso is None or port is None or G is None or W is None:
+    # (the rest of the redis section: typed settings like the others; they say HOW to talk to a store, never that there is one)
+    tls = parse_bool(v("redis.tls"))
+    idle_s = v("redis.connection-idle-timeout")
+    idle = parse_int(idle_s) if idle_s != "" else 0
+    if secure is None or sso is None or port is None or G is None or W is None or tls is None or idle is None:
         return ["malformed-typed-setting"], {}
     # encryption key
     key = v("encryption-key")
@@ -303,6 +307,7 @@ def rules(case, **reading):
 def monitor(ctx, casefile):
     n = 0
     sig = set()
+    store_rows = set()
     listening = refused = 0
     for line in open(casefile):
         case = json.loads(line)
@@ -316,6 +321,22 @@ def monitor(ctx, casefile):
         listening += started
         refused += not started
         sig.add((started, res["code"], tuple(bad[:2])))
+        # coverage of the clause "SSO modes need a shared store": SSO-mode runs in which no store is named, by how the
+        # settings were supplied and by whether anything else of the redis section (incl. redis.tls) was on the command line
+        # or in the environment
+        if bad == ["sso-store"] and facts.get("mode") in ("server", "proxy"):
+            given = set()
+            for x in case["args"] or []:
+                m = re.match(r"^--(redis\.[a-z\-]+)=", x)
+                if m:
+                    given.add(m.group(1))
+            for e in case["env"] or []:
+                m = re.match(r"^WONDERWALL_REDIS_([A-Z_]+)=", e)
+                if m:
+                    given.add("redis." + m.group(1).lower().replace("_", "-"))
+            given = sorted(given)
+            via = "flags" if any(a.startswith("--sso.enabled=") for a in case["args"] or []) else "environment"
+            store_rows.add((facts["mode"], via, tuple(given)))
         small = {"note": case["note"], "args": case["args"], "env": case["env"], "disc": case["disc"],
                  "result": res, "violated_rules": bad}
         if res["code"] in (60, 95):
@@ -376,7 +397,7 @@ def monitor(ctx, casefile):
                               small)
             else:
                 ctx.violation("refused-valid-config-%d" % code, "a configuration satisfying every documented rule is refused", small)
-    return n, len(sig), listening, refused
+    return n, len(sig), listening, refused, store_rows
 
 
 def run(ctx):
@@ -401,9 +422,17 @@ def run(ctx):
     ctx.correspondence("run: built binary (flags x WONDERWALL_* x provider variables x discovery documents) vs cf_run outcome class",
                        pre + "-run.in", pre + "-run.impl",
                        note="outcome class = number of the first failing check, from the binary's fatal message; 0 = TCP connect to --bind-address succeeded")
-    n, nsig, nl, nr = monitor(ctx, pre + "-run.cases")
+    n, nsig, nl, nr, store_rows = monitor(ctx, pre + "-run.cases")
     ctx.nontrivial += nsig
     ctx.extra["binary_runs"] = {"total": n, "listening": nl, "refused": nr}
+    # the clause "SSO modes need a shared store" must have been exercised for both SSO modes x both channels, with redis.tls
+    # left at its default (not forced off by the harness) among them: a sweep without such rows proves nothing about the clause
+    need = [(m, via) for m in ("server", "proxy") for via in ("flags", "environment")]
+    have = {(m, via) for m, via, given in store_rows if "redis.tls" not in given}
+    ctx.extra["sso_without_store_rows"] = {"distinct": len(store_rows), "with_redis_tls_at_its_default": sorted("%s/%s" % x for x in have)}
+    missing = [x for x in need if x not in have]
+    if missing:
+        raise vf.InfraError("C20: no binary run with an SSO mode, no store setting and redis.tls at its default for %s" % missing)
     with open(pre + "-run.cases") as f:
         for i, line in enumerate(f):
             if i % 97 == 0:
@@ -417,6 +446,9 @@ def run(ctx):
                 "advertised {substantial, high, Level3, Level4, other-acr}; configured locale {unset, nb, en, se, xx, nn} x subsets of {nb, en, se, xx}; configured "
                 "signing alg {unset, RS256, ES256, PS256, none, HS256, XX} x subsets of {RS256, ES256, PS256, none}; each in standalone and SSO server x openid/azure/idporten "
                 "(SSO proxy: one row per configured value); "
+                "shared store: {SSO server, SSO proxy, standalone control} x {everything on flags, everything on WONDERWALL_ variables} x {redis.address and redis.uri absent, "
+                "address empty, uri empty, both empty} x {nothing else, redis.password, redis.username, redis.tls=true, redis.tls=false, redis.connection-idle-timeout=30 / -1, "
+                "tls=false + password, all four} with redis.tls NOT forced (flag default true), malformed redis.tls / idle-timeout, and controls with a store by redis.uri (tls at its default) / redis.address (tls=false); "
                 "distinct_nontrivial = distinct (listening, outcome class, first violated documented rules) signatures. "
                 "In-process: key strings exhaustive over {A = LF ! /} up to length 7 + encodings of 0..40 bytes and damaged variants + random; "
                 "ingress strings = every sequence of up to 3 of 30 URL pieces, secure and insecure, + random longer; pools x single deviations x random combinations of the other Validate fields")
@@ -425,7 +457,8 @@ def run(ctx):
         "abstract in the model, taken from the libraries by the driver: jwk.ParseKey, redis.ParseURL (finite oracle sets over the value pools), "
         "strconv.ParseBool/ParseInt and time.ParseDuration (table checked against the standard library at driver start), http.Get reachability of the discovery URL, "
         "JSON decoding / url.Parse of end_session_endpoint / jwk cache fetch as booleans of the discovery-document record",
-        "environment kept healthy and outside the model: Redis reachable when configured (miniredis, redis.tls=false passed as a constant flag), "
+        "environment kept healthy and outside the model: Redis reachable when configured (miniredis speaks plain TCP without authentication: every case that names a store by "
+        "redis.address carries redis.tls=false and no redis.password / redis.username; redis.tls is a setting of the case, not a constant of the harness - the cases without a store leave it at its default true), "
         "bind addresses free (fresh ports per process; 'address already in use' is retried), no OTEL_* variables, no config file in the working directory or /etc",
         "pflag StringSlice CSV parsing is modelled as splitting on ',' (generated values contain no quotes or newlines in list settings)",
         "chi regular-expression route parameters ({name:regex}) in ingress paths are outside the model; strings.EqualFold is modelled on ASCII",
